@@ -627,4 +627,50 @@ class CheckIO(Contract):
         return out
 
 
+def _check_io_probe(self, rec):
+    def thunk():
+        """the same decorated function called three times: every call is gated like the first (no state carried between calls)"""
+        import warnings
+
+        import pandas as pd
+        import pandera as pa
+
+        warnings.simplefilter("ignore")
+        obs, bad = {}, False
+        out_schema = pa.DataFrameSchema({"a": pa.Column(int, pa.Check.gt(0), coerce=True)})
+
+        @pa.check_io(df=pa.DataFrameSchema({"a": pa.Column(int)}), out=(lambda r: r["frame"], out_schema))
+        def negate(df):
+            return {"frame": df.assign(a=-df["a"])}  # never satisfies the out schema
+
+        outcomes = []
+        for _ in range(3):
+            try:
+                negate(pd.DataFrame({"a": [1, 2]}))
+                outcomes.append("returned an output the out schema rejects")
+            except Exception as e:  # noqa: BLE001
+                outcomes.append(type(e).__name__)
+        obs["callable getter + coercing out schema, three calls"] = outcomes
+        bad = bad or len(set(outcomes)) != 1 or outcomes[0].startswith("returned")
+
+        @pa.check_io(df=pa.DataFrameSchema({"a": pa.Column(int, pa.Check.gt(0))}))
+        def ident(df):
+            return df
+
+        seq = []
+        for data in ([1, 2], [-1], [3], [-2]):
+            try:
+                ident(pd.DataFrame({"a": data}))
+                seq.append("ran")
+            except pa.errors.SchemaError:
+                seq.append("rejected")
+        obs["valid / invalid / valid / invalid inputs"] = seq
+        bad = bad or seq != ["ran", "rejected", "ran", "rejected"]
+        return bad, obs
+
+    return thunk
+
+
+CheckIO.concretize = _check_io_probe
+
 CONTRACTS = [CheckInput, CheckOutput, CheckIO]
